@@ -576,6 +576,11 @@ func cvEmitMsm(g *Gen, pl *cvPool, class, op string, n, variant int) {
 	ss, ps := cvTerms(g, pl, n, variant)
 	if op == "xmsmvt" {
 		k := []int{0, n, n / 2, g.Intn(n + 1)}[g.Intn(4)]
+		if n >= 150 {
+			// large cases are few (each costs a second of model time): make every one of them mix static and dynamic
+			// terms (all-dynamic is msmvt; all-static keeps one chance in eight), incl. the lopsided 1 / n-1 splits
+			k = []int{1, n - 1, n / 2, n / 2, 1 + g.Intn(n-1), 1 + g.Intn(n-1), 1 + g.Intn(n-1), n}[g.Intn(8)]
+		}
 		f := []string{"G1", op, itoa(k), itoa(k), itoa(n - k), itoa(n - k)}
 		f = append(append(append(append(f, ss[:k]...), ps[:k]...), ss[k:]...), ps[k:]...)
 		g.Emit(class, f...)
